@@ -130,7 +130,7 @@ Proof.
     + exfalso. apply (proj2 (HQ a Ha)). exact Epc.
     + (* Sleep: contradiction with being woken *)
       exfalso. destruct (HWoken a await Ha Epc) as [Hlt Hnew].
-      rewrite (aux_sleep _ _ HA a await Epc Hnew), Htm, Hpa, tlt_irrefl in Hlt. discriminate.
+      rewrite (aux_sleep _ _ HA a await Epc Hnew), Htm, (sleep_until_id _ a tau (aux_bound _ _ HA a tau Ha Htau)), Hpa, tlt_irrefl in Hlt. discriminate.
     + (* WaitDeps t: t = tau and all guards hold *)
       assert (t = tau).
       { apply tle_antisym; [rewrite <- Hpa; apply HWle; exact Epc|].
